@@ -233,9 +233,16 @@ def run_property(prop, tier, seed, only=None, quiet=False):
     try:
         check_anchors(ctx, mod)
         _defer_broken(ctx)
-        mod.run(ctx)
+        try:
+            mod.run(ctx)
+        except AnalysisBroken as e:
+            # the rest of the module's rules could not be evaluated; the helper rules that follow the call graph still are
+            ctx.deferred_broken.append(str(e))
         import closure
-        closure.share(ctx)
+        try:
+            closure.share(ctx)
+        except AnalysisBroken as e:
+            ctx.deferred_broken.append(str(e))
         if ctx.deferred_broken:
             if not any(o['status'] == 'violated' for o in ctx.obligations):
                 raise AnalysisBroken(ctx.deferred_broken[0])
